@@ -1,16 +1,65 @@
-(* C03 — property theorems (statements only; proofs live in Proofs*.v). *)
-From Coq Require Import ZArith QArith Bool List.
-Require Import QV.C03.Model QV.C03.Spec QV.C03.Proofs QV.C03.Proofs2 QV.C03.Proofs3.
+(* C03 — property theorems (statements only; proofs live in Proofs*.v).
 
-(* The operational model (scope objects, keys()/as_dict(), eager mapping inside atomic parents, per-class order of
-   evaluation) refines the ideal lazy verdict over the list of obligations of all reached nodes: it agrees with it,
-   or reports a missing parameter, or reports another error where the ideal verdict reports a missing value. *)
+   run p s drop            operational model of PulseTemplate._create_program on the constructed template p with
+                           scope object s (Model.v); create_program u values drop = run (construct u) (SDict values) drop
+   verdict p rho drop      the ideal lazy verdict over obs p rho drop, the obligations of all reached nodes (Spec.v)
+   visible / all_hold / none_missing / plays   the specification's visible constraints, "everything holds",
+                           "no needed value missing", "something is played"
+   wf p                    every mapping has an entry for every parameter of its template, parts of a multi-channel
+                           atom are atomic; established by the constructors (C03_construct_wf)
+   uok u                   user-level precondition of construct: parts of an AtomicMultiChannelPT are atomic       *)
+From Coq Require Import ZArith QArith Bool List.
+Require Import QV.C03.Model QV.C03.Spec QV.C03.Proofs QV.C03.Proofs2 QV.C03.Proofs3 QV.C03.Proofs4 QV.C03.Proofs5
+               QV.C03.Proofs6 QV.C03.Proofs7.
+
+Theorem C03_construct_wf : forall u, uok u -> wf (construct u).
+Proof. exact construct_wf. Qed.
+Print Assumptions C03_construct_wf.
+
+(* every scope, every tree: the model agrees with the ideal verdict, or reports a missing parameter, or reports
+   another error where the ideal verdict reports a missing value *)
 Theorem C03_refines : forall p s drop, wf p -> refines (run p s drop) (verdict p (lookup s) drop).
 Proof. intros p s drop H. exact (run_ref p H s drop). Qed.
 Print Assumptions C03_refines.
 
-(* (c, only-if) a program (or None) is returned only if every obligation of every reached node holds; in particular
-   every visible constraint is true in the environment its node sees; the result is a program iff something plays *)
+(* (a) values for the declared names suffice: never "missing parameter" *)
+Theorem C03_sufficient : forall u values drop, uok u ->
+  (forall x, In x (pnames (construct u)) -> In x (map fst values)) ->
+  create_program u values drop <> Err Missing.
+Proof. exact create_program_sufficient. Qed.
+Print Assumptions C03_sufficient.
+
+(* (b) full statement: assignments that agree on the declared names give the same result *)
+Definition C03_irrelevant_statement : Prop := forall u v1 v2 drop, uok u ->
+  (forall x, In x (pnames (construct u)) -> assoc x v1 = assoc x v2) ->
+  create_program u v1 drop = create_program u v2 drop.
+(* (b) proved for assignments that both supply every declared name (extra names, other values for them) *)
+Theorem C03_irrelevant_partial : forall u v1 v2 drop, uok u ->
+  (forall x, In x (pnames (construct u)) -> In x (map fst v1) /\ In x (map fst v2) /\ assoc x v1 = assoc x v2) ->
+  create_program u v1 drop = create_program u v2 drop.
+Proof. exact irrelevant_complete. Qed.
+Print Assumptions C03_irrelevant_partial.
+
+(* (c) with every declared name supplied: accepted iff every obligation of every reached node holds (all visible
+   constraints true, counts/ranges integral, windows non-negative); a program iff something plays *)
+Theorem C03_constraints : forall u values drop b, uok u ->
+  (forall x, In x (pnames (construct u)) -> In x (map fst values)) ->
+  (create_program u values drop = Ok b <->
+   all_hold (construct u) (lookup (SDict values)) drop = true /\ b = plays (construct u) (lookup (SDict values)) drop).
+Proof. exact complete_iff. Qed.
+Print Assumptions C03_constraints.
+
+(* (c) ... otherwise, numbers being well-formed, a constraint violation is raised *)
+Theorem C03_constraints_reject : forall u values drop, uok u ->
+  (forall x, In x (pnames (construct u)) -> In x (map fst values)) ->
+  all_hold (construct u) (lookup (SDict values)) drop = false ->
+  some_other (construct u) (lookup (SDict values)) drop = false ->
+  create_program u values drop = Err Violated.
+Proof. exact complete_violated. Qed.
+Print Assumptions C03_constraints_reject.
+
+(* (c, only-if, any assignment / scope) a result is returned only if every visible constraint is true in the
+   environment its node sees and no needed value is missing *)
 Theorem C03_constraints_sound : forall p s drop b, wf p -> run p s drop = Ok b ->
   (forall c r, In (c, r) (visible p (lookup s) drop) -> ceval r c = Some true)
   /\ none_missing p (lookup s) drop = true /\ b = plays p (lookup s) drop.
@@ -20,13 +69,13 @@ Proof.
 Qed.
 Print Assumptions C03_constraints_sound.
 
-(* (c, never rejects wrongly) a constraint violation is raised only if a visible constraint is false *)
+(* (c, never rejects wrongly, any assignment / scope) a violation is raised only for a false visible constraint *)
 Theorem C03_violation_justified : forall p s drop, wf p -> run p s drop = Err Violated ->
   exists c r, In (c, r) (visible p (lookup s) drop) /\ ceval r c = Some false.
 Proof. exact violated_sound. Qed.
 Print Assumptions C03_violation_justified.
 
-(* (d) a missing needed value never yields a program *)
+(* (d) a missing needed value never yields a program (nor None) *)
 Theorem C03_missing : forall p s drop b, wf p -> none_missing p (lookup s) drop = false -> run p s drop <> Ok b.
 Proof. exact missing_never_ok. Qed.
 Print Assumptions C03_missing.
